@@ -424,6 +424,8 @@ def run_processes(case, ctx):
         log = os.path.join(d, "exec.log")
         ctx.evaluated()
         hist = []
+        edited = False
+        edited_sessions = []
         for si, k in enumerate(versions):
             args = [rng.randint(0, 2) for _ in range(rng.randint(1, 4))]
             which = [rng.randint(0, 1) for _ in args] if two else None
@@ -432,6 +434,13 @@ def run_processes(case, ctx):
             if si > 0 and versions[si - 1] != k and not two:
                 known = set()
             cfg = dict(style="module" if two else style, version=k, args=args, dir=d, log=log, shape=shape, which=which)
+            edited_before = edited
+            edited = False
+            if style == "module" and si + 1 < len(versions) and versions[si + 1] != k and rng.random() < 0.6:
+                # the file is rewritten with the NEXT session's version after this session imported it, before its first call
+                cfg["edit_after_import"] = versions[si + 1]
+                edited = True
+                ctx.count("sessions_whose_source_file_is_edited_before_their_first_call")
             cf, of = os.path.join(d, f"cfg{si}.json"), os.path.join(d, f"out{si}.json")
             with open(cf, "w") as f:
                 json.dump(cfg, f)
@@ -442,14 +451,24 @@ def run_processes(case, ctx):
                 ctx.inconclusive("session-failed", dict(cfg=cfg, err=r["err"][-400:]))
                 return
             hist.append((k, args) if not two else (k, args, which))
-            desc = dict(style=style, sessions=hist, shape=shape)
+            if edited:
+                edited_sessions.append(si)
+            desc = dict(style=style, sessions=hist, shape=shape, sessions_edited_before_their_first_call=list(edited_sessions))
             executed = [tuple(json.loads(l)) for l in open(log).read().splitlines()]
             for a, got in zip(args, r["result"]["values"]):
                 ctx.count("calls_checked")
                 if got != [f"v{k}", a]:
-                    ctx.violation(f"wrong-version:processes-{style}" + (":" + shape if shape else ""), f"session {si} running version {k}: f({a}) returned {got}; sessions so far {hist}", desc)
+                    if got in [[f"v{versions[e]}", a] for e in edited_sessions if e < si] or (edited and got == [f"v{versions[si + 1]}", a]):
+                        # (second form: THIS session has the old definition loaded, reads the edited file, finds the text the
+                        # next version's earlier sessions recorded, and is served their values)
+                        # the previous session recorded THIS version's source text (read from the edited file at its first call) next to results of the code it had loaded
+                        ctx.violation("wrong-version:source-file-edited-before-first-call", f"session {si} running version {k}: f({a}) returned {got}, computed by an earlier session (one of {[e for e in edited_sessions if e < si]}) that had imported "
+                                                                                             f"that version before the file was edited and called the function afterwards; sessions so far {hist}", desc)
+                    else:
+                        ctx.violation(f"wrong-version:processes-{style}" + (":" + shape if shape else ""), f"session {si} running version {k}: f({a}) returned {got}; sessions so far {hist}", desc)
                     return
-            if si > 0 and versions[si - 1] == k and not two:
+            if si > 0 and versions[si - 1] == k and not two and not edited:
+                # (a session whose file was edited before its first call sees other source text than the recorded one: it recomputes)
                 ctx.count("unchanged_sessions_checked")
                 again = [e for e in executed if (e[0], e[1]) in {(f"v{kk}", aa) for kk, aa in known}]
                 if again:
